@@ -1,7 +1,222 @@
-from ..model import AnalysisError
+"""C03 - flow items are conserved across the whole factory (partial: the safety half).
+
+  R1 ownership typestate over every node process: an item obtained from Item(...)/Pallet(...), an edge/store
+     get, `pallet.items.pop`, or received as the parameter of a spawned worker/_push_item is *owned*; on every
+     non-raising path to the loop back-edge or return it is transferred exactly once - edge.put(tok, item),
+     hand-off to a spawned process, pallet.add_item(item), a counted discard or a counted sink reception;
+  R2 counter pairing: creation ↔ num_item_generated, downstream push ↔ num_item_processed, sink get ↔
+     num_item_received - once each, on the same path;
+  R4 every spawned process that receives an item owns it at entry (hand-off matches the callee's parameter).
+  (R3: store conservation is C02.R1/R2, edge delegation is C01.O7 - not re-checked here.)
+"""
+from __future__ import annotations
+
+import ast
+
+from .. import nodewalk, paths
+from ..model import AnalysisError, Project
+from ..report import Result
+from .common import site, src, status_str
+
 PROP = 'C03'
 LEVEL = 'other'
 
+CTORS = ('Item', 'Pallet')
 
-def run(p, tier):
-    raise AnalysisError('rule module for C03 not implemented yet (fail closed)')
+
+def is_item_source(e):
+    if e.kind == 'xcall' and e.name in CTORS:
+        return 'constructor'
+    if e.kind == 'pcall' and e.name == 'get':
+        return 'get'
+    if e.kind == 'xcall' and e.name.endswith('.items.pop'):
+        return 'pallet-pop'
+    if e.kind == 'pcall' and e.name == 'remove_item':
+        return 'pallet-pop'
+    return None
+
+
+def owned_params(ws):
+    """(class name, root) -> set of parameter positions that receive an owned item at some spawn site."""
+    out = {}
+    for w in ws:
+        for root, ps in w.roots.items():
+            for pa in ps:
+                owned = set()
+                for e in pa.events:
+                    if is_item_source(e):
+                        owned.add(e.d.get('result'))
+                    if e.kind == 'spawn' and e.func.startswith('self.'):
+                        callee = e.func[5:]
+                        for i, v in enumerate(e.args):
+                            if v in owned or (v is not None and v[0] == 'param'):
+                                if v[0] == 'param' and ('param', v[1]) not in {('param', x) for x in out.get((w.ci.name, root), {}).get('names', set())} and v not in owned:
+                                    # a parameter of the spawner that is itself an owned item parameter is decided in a second pass
+                                    continue
+                                out.setdefault((w.ci.name, callee), {}).setdefault('pos', set()).add(i)
+    return out
+
+
+def run(p: Project, tier: str) -> Result:
+    r = Result(PROP)
+    r.explanation = ('Linear ownership typestate of flow items through every node process (obtained exactly once ⇒ disposed exactly once) '
+                     'and pairing of the generated / processed / discarded / received counters with the transfers they count. '
+                     'Decides the safety half (no loss, no duplication by a node); liveness and the per-instant census are not decided.')
+    r.rule('C03.R1', 'every owned item is transferred exactly once on every non-raising path of every node process', 15)
+    r.rule('C03.R2', 'generated / processed / received counters are incremented exactly once per creation / push / reception on the same path', 8)
+    r.rule('C03.R4', 'every item handed to a spawned process is owned by that process at entry and disposed by it', 8)
+    r.not_decided = ['liveness: "when nothing is blocked forever every item ends up received or discarded"',
+                     'the instant-by-instant census generated = in edges + in nodes + packed + discarded + received',
+                     'conservation inside stores (C02) and edges (C01.O7)']
+    r.assumptions = ['items are identified by object identity of the values flowing through locals / self attributes']
+    ws = nodewalk.walks(p)
+    # pass 1: parameters of spawned roots that receive items
+    own_pos = {}
+    for _ in range(2):
+        for w in ws:
+            for root, ps in w.roots.items():
+                fi = w.root_funcs[root]
+                pnames = [a.arg for a in fi.node.args.args if a.arg != 'self']
+                mine = {('param', pnames[i]) for i in own_pos.get((w.ci.name, root), set()) if i < len(pnames)}
+                for pa in ps:
+                    owned = set(mine)
+                    for e in pa.events:
+                        if is_item_source(e):
+                            owned.add(e.d.get('result'))
+                        if e.kind == 'spawn' and e.func.startswith('self.'):
+                            for i, v in enumerate(e.args):
+                                if v in owned:
+                                    own_pos.setdefault((w.ci.name, e.func[5:]), set()).add(i)
+    for w in ws:
+        r.paths += w.npaths
+        for root, ps in w.roots.items():
+            fi = w.root_funcs[root]
+            r.analysed_functions.add(fi.key)
+            pnames = [a.arg for a in fi.node.args.args if a.arg != 'self']
+            mine = [('param', pnames[i]) for i in sorted(own_pos.get((w.ci.name, root), set())) if i < len(pnames)]
+            check_root(r, w, root, fi, ps, mine, own_pos)
+    return r
+
+
+def check_root(r, w, root, fi, ps, mine, own_pos):
+    cls = w.ci.name
+    has_processed = any(e.kind == 'setitem' and 'num_item_processed' in e.target for ps2 in w.roots.values() for pa in ps2 for e in pa.events)
+    src_sites = {}
+    pair_sites = {}
+    handoff_sites = {}
+    for pa in ps:
+        if pa.raises or pa.status == 'loopcut':
+            continue
+        owned = {}          # value -> record
+        order = []
+
+        def own(v, e, origin):
+            if v is None or v in owned:
+                return
+            owned[v] = {'e': e, 'origin': origin, 'n': 0, 'how': []}
+            order.append(v)
+        for v in mine:
+            own(v, None, f'parameter {v[1]}')
+        anon = []
+        n_ctor = n_gen = n_put = n_push_spawn = n_proc = n_get = n_recv = n_disc = 0
+        for e in pa.events:
+            k = e.kind
+            s_ = is_item_source(e)
+            if s_:
+                own(e.d.get('result'), e, s_)
+                if s_ == 'constructor':
+                    n_ctor += 1
+                if s_ == 'get':
+                    n_get += 1
+            if k == 'pcall' and e.name == 'put':
+                n_put += 1
+                v = e.args[1] if len(e.args) > 1 else None
+                if v in owned:
+                    owned[v]['n'] += 1
+                    owned[v]['how'].append(f'put@{e.line}')
+                else:
+                    anon.append(('put of an item this process does not own', e))
+            elif k == 'pcall' and e.name == 'add_item':
+                v = e.args[0] if e.args else None
+                if v in owned:
+                    owned[v]['n'] += 1
+                    owned[v]['how'].append(f'add_item@{e.line}')
+            elif k == 'spawn' and e.func.startswith('self.'):
+                callee = e.func[5:]
+                if callee == '_push_item':
+                    n_push_spawn += 1
+                for i, v in enumerate(e.args):
+                    if v in owned:
+                        owned[v]['n'] += 1
+                        owned[v]['how'].append(f'spawn {callee}@{e.line}')
+                        hk = site(e.fi, e.node, f'handoff:{callee}')
+                        ok = i in own_pos.get((cls, callee), set()) and callee in w.roots
+                        rec = handoff_sites.setdefault(hk, {'ok': True, 'e': e, 'pa': pa})
+                        if not ok:
+                            rec.update(ok=False, pa=pa)
+            elif k == 'setitem' and e.aug and e.aug[0] == 'Add':
+                if 'num_item_generated' in e.target:
+                    n_gen += 1
+                elif 'num_item_processed' in e.target:
+                    n_proc += 1
+                elif 'num_item_discarded' in e.target:
+                    n_disc += 1
+                elif 'num_item_received' in e.target:
+                    n_recv += 1
+        # anonymous disposals (counted discard / counted reception) go to items not yet disposed, oldest first
+        free = n_disc + n_recv
+        for v in order:
+            if owned[v]['n'] == 0 and free > 0:
+                owned[v]['n'] += 1
+                owned[v]['how'].append('counted discard/reception')
+                free -= 1
+        for v in order:
+            rec0 = owned[v]
+            e = rec0['e']
+            if e is not None:
+                key = site(e.fi, e.d.get('node'), f'item:{rec0["origin"]}')
+                line, mod = e.line, e.fi.module
+            else:
+                key = f'{fi.key}::item:{rec0["origin"]}'
+                line, mod = fi.node.lineno, fi.module
+            rec = src_sites.setdefault(key, {'ok': True, 'pa': pa, 'msg': '', 'line': line, 'mod': mod})
+            if rec0['n'] != 1 and rec['ok']:
+                if rec0['n'] == 0:
+                    msg = f'item obtained by {rec0["origin"]} is neither put, packed, handed to a spawned process, nor counted as discarded/received on this path (lost)'
+                else:
+                    msg = f'item obtained by {rec0["origin"]} is disposed {rec0["n"]} times ({", ".join(rec0["how"])}) (duplicated)'
+                rec.update(ok=False, pa=pa, msg=msg)
+        if free > 0:
+            key = f'{fi.key}::discard-without-item'
+            rec = src_sites.setdefault(key, {'ok': True, 'pa': pa, 'msg': '', 'line': fi.node.lineno, 'mod': fi.module})
+            rec.update(ok=False, pa=pa, msg=f'{free} discard/reception count(s) on a path that holds no undisposed item (counter runs ahead of the items)')
+        # R2 pairing
+        checks = []
+        if cls == 'Source' and root == 'behaviour':
+            checks.append(('generated', n_ctor, n_gen, 'item creations', 'num_item_generated increments'))
+        if has_processed and root != '_push_item' and root != '_pull_item':
+            checks.append(('processed', n_put + n_push_spawn, n_proc, 'pushes (put / spawned _push_item)', 'num_item_processed increments'))
+        if cls == 'Sink':
+            checks.append(('received', n_get, n_recv, 'gets', 'num_item_received increments'))
+        for name, a, b, an, bn in checks:
+            key = f'{fi.key}::counter:{name}'
+            rec = pair_sites.setdefault(key, {'ok': True, 'pa': pa, 'msg': '', 'n': 0})
+            rec['n'] += 1
+            if a != b and rec['ok']:
+                rec.update(ok=False, pa=pa, msg=f'{a} {an} but {b} {bn} on one path')
+    for key, rec in sorted(src_sites.items()):
+        if rec['ok']:
+            r.ok('C03.R1', key, 'disposed exactly once on every explored path', src(rec['mod']), rec['line'])
+        else:
+            r.fail('C03.R1', key, rec['msg'], src(rec['mod']), rec['line'], rec['pa'].describe())
+    for key, rec in sorted(pair_sites.items()):
+        if rec['ok']:
+            r.ok('C03.R2', key, f'paired on {rec["n"]} path(s)', src(fi.module), fi.node.lineno)
+        else:
+            r.fail('C03.R2', key, rec['msg'], src(fi.module), fi.node.lineno, rec['pa'].describe())
+    for key, rec in sorted(handoff_sites.items()):
+        e = rec['e']
+        if rec['ok']:
+            r.ok('C03.R4', key, 'the spawned process owns the item at entry (and C03.R1 holds for it)', src(e.fi.module), e.line)
+        else:
+            r.fail('C03.R4', key, f'item handed to `{e.func}` but that process is not analysed as owning it', src(e.fi.module), e.line, rec['pa'].describe())
